@@ -83,3 +83,20 @@ Proof.
   apply (cli_form_agrees_with_api demo_form empty_state (WL [VOp OPrint; WL [VOp OAdd; VInt 1; VInt 2]]) empty_state
                                   (WL [VOp OPrint; VInt 3])); vm_compute; reflexivity.
 Qed.
+
+(** with ExpandProofs: for a processed form without macro calls the expand fixed point is a theorem; what remains
+    a premise is that the second expansion completes (fuel) and that optimize has nothing left to fold *)
+From WalModel.proofs Require Import ExpandProofs.
+Theorem cli_form_agrees_macro_free e st e1 st1 r e2 st2 :
+  ast_truthy e = true ->
+  ex0 e (Some global_id) st = Ok e1 st1 -> optimize_modelled e1 = true ->
+  resolve (global_names st1) (optimize e1) = RsOk r ->
+  ast_truthy r = true ->
+  mfree st1 r = true -> ex0 r (Some global_id) st1 = Ok e2 st2 ->
+  optimize_modelled r = true -> optimize r = r -> val_depth r = val_depth (optimize e1) ->
+  cli_form e st = wal_eval e [] st.
+Proof.
+  intros Ht Hex Hom Hres Htr Hmf Hex2 Hom2 Hopt2 Hd.
+  destruct (expand_macro_free LF FUEL r (Some global_id) st1 e2 st2 Hmf Hex2) as [-> ->].
+  apply (cli_form_agrees_with_api e st e1 st1 r); assumption.
+Qed.
